@@ -450,6 +450,23 @@ func (cx *Ctx) inMod(l *Term, srt Sort, m ModLoc) *Term {
 	switch {
 	case m.all:
 		return b.True()
+	case m.allOf != nil && len(m.path) > 0:
+		root := func(x *Term) *Term { return b.True() }
+		ft := m.allOf
+		for _, nm := range m.path {
+			si := cx.w.structInfo(ft)
+			for _, f := range append(append([]FieldInfo{}, si.Fields...), si.Ghosts...) {
+				if f.Name == nm {
+					prev, fid := root, f.FID
+					root = func(x *Term) *Term {
+						return b.And(b.mk("(_ is Fld)", SBool, x), b.Eq(b.App("fid", SInt, x), b.Int(int64(fid))), prev(b.App("fbase", SLoc, x)))
+					}
+					ft = f.Type
+					break
+				}
+			}
+		}
+		return cx.inside(l, ft, srt, root)
 	case m.allOf != nil:
 		if isLeafType(m.allOf) {
 			if cx.w.sortOf(m.allOf) == srt {
